@@ -142,107 +142,69 @@ def r3_sources_and_atoms(ctx):
         ok = ("data_ele['%s']" % nm) in found and all(norm(v) == nm for v in src.get(nm, []))
         yield Ob('map_if:element_if.is_valid %s comes from the data element definition' % nm, ok, ctx.floc(fn),
                  '' if ok else '%s is bound from %s' % (nm, [norm(v) for v in src.get(nm, [])]))
-    # numeric test: the If whose test, evaluated over the data types, is exactly "R or N*"
-    num_if = None
-    for s_ in ast.walk(fn):
-        if isinstance(s_, ast.If) and A.free_paths(s_.test) == {'data_type'}:
-            try:
-                vals = [(dt, bool(A.ev(s_.test, {'data_type': dt}))) for dt in ('R', 'N', 'N0', 'N2', 'ID', 'AN', 'DT', 'TM', 'B', None)]
-            except (A.NotClosed, TypeError):
-                continue
-            if all(v == (dt is not None and (dt == 'R' or dt[0] == 'N')) for dt, v in vals):
-                num_if = s_
-    yield Ob('map_if:element_if.is_valid numeric length rule applies exactly to R and N types', num_if is not None, ctx.floc(fn),
-             '' if num_if is not None else 'no test that separates exactly the R and N* types from the others: sign and point would be (not) counted for the wrong types')
-    if num_if is None:
+    # length rule, decided over a finite domain by constant propagation through the region that measures the value:
+    # for every data type, value, minimum and maximum the reported codes must be those of the standard
+    # (numeric types R/N*: sign and decimal point are not counted; every other type: the raw length)
+    from ..absint import explore
+    g = ctx.cfg(fn)
+    FLD = {'data_type', 'min_len', 'max_len'}
+    mention = [nd for nd in g.nodes if nd.ast is not None and any(isinstance(x, ast.Name) and x.id in FLD and isinstance(x.ctx, ast.Load)
+                                                                   for x in g.walk_exprs(nd))]
+    if not mention:
+        raise AnalysisError('element_if.is_valid: no statement reads the data type or the length bounds')
+    start = min(mention, key=lambda nd: nd.id)
+    report_nodes = {}
+    for nd in g.nodes:
+        for x in g.walk_exprs(nd):
+            if isinstance(x, ast.Call) and _is_report(x) and len(x.args) > 2 and A.const(x.args[2]) in ('4', '5'):
+                report_nodes[nd.id] = A.const(x.args[2])
+    if set(report_nodes.values()) != {'4', '5'}:
+        yield Ob('map_if:element_if.is_valid has a min and a max length test for numeric and for non-numeric types', False, ctx.floc(fn),
+                 'length codes reported: %s' % sorted(set(report_nodes.values())))
         return
-    # the stripped string: elem_val with exactly '-' and '.' removed
-    strips = [x for x in ast.walk(fn) if isinstance(x, ast.Assign) and isinstance(x.targets[0], ast.Name) and isinstance(x.value, ast.Call)
-              and A.call_target(x.value)[1] == 'replace']
-    strip_names = {}
-    for x in strips:
-        removed = []
-        e = x.value
-        while isinstance(e, ast.Call) and A.call_target(e)[1] == 'replace':
-            removed.append((A.const(e.args[0]), A.const(e.args[1])))
-            e = e.func.value
-        if path_of(e) == 'elem_val':
-            strip_names[x.targets[0].id] = (sorted(removed), x)
-    ok = len(strip_names) == 1 and list(strip_names.values())[0][0] == [('-', ''), ('.', '')]
+    def _unknown(nd, env):
+        if any(isinstance(x, ast.Name) and x.id in ('min_len', 'max_len') for x in ast.walk(nd.ast)):
+            raise AnalysisError('element_if.is_valid: a test on the length bounds cannot be evaluated: %s' % norm(nd.ast))
+
+    # nothing but the sign and the decimal point is taken out of the value before it is measured
+    removed = set()
+    for x in ast.walk(fn):
+        if isinstance(x, ast.Call) and isinstance(x.func, ast.Attribute) and x.func.attr in ('replace', 'translate', 'strip', 'lstrip'):
+            root = x.func.value
+            while isinstance(root, ast.Call) and isinstance(root.func, ast.Attribute):
+                root = root.func.value
+            if path_of(root) in ('elem_val', 'elem_strip'):
+                removed.add(tuple(A.const(a_) for a_ in x.args) if x.func.attr == 'replace' else (x.func.attr,))
+    ok = removed <= {('-', ''), ('.', '')}
     yield Ob('map_if:element_if.is_valid sign and point are not counted (and nothing else is removed)', ok, ctx.floc(fn),
-             '' if ok else 'characters removed before measuring: %s' % {k: v[0] for k, v in strip_names.items()})
-    stripped = set(strip_names)
-
-    def cls_of(node):
-        """'num' if the node lies in the numeric branch, 'str' in the other branch, 'both' outside the test"""
-        p_ = A.parent(node)
-        child = node
-        while p_ is not None and p_ is not fn:
-            if p_ is num_if:
-                return 'num' if child in num_if.body else 'str'
-            child = p_
-            p_ = A.parent(p_)
-        return 'both'
-
-    def meaning(name, where):
-        """'stripped' / 'raw' / None for the string a name denotes at `where` ('num'|'str')"""
-        if name in stripped:
-            return 'stripped'
-        if name == 'elem_val':
-            return 'raw'
-        defs = [x for x in ast.walk(fn) if isinstance(x, ast.Assign) and path_of(x.targets[0]) == name]
-        ms = set()
-        for d in defs:
-            c = cls_of(d)
-            if c in (where, 'both') and isinstance(d.value, ast.Name):
-                ms.add(meaning(d.value.id, where) if d.value.id != name else None)
-        return ms.pop() if len(ms) == 1 else None
-    # too short / too long atoms
-    def _len_atom(t):
-        if not (isinstance(t, ast.Compare) and len(t.ops) == 1):
-            return None
-        for a, b in ((t.left, t.comparators[0]), (t.comparators[0], t.left)):
-            if isinstance(a, ast.Call) and path_of(a.func) == 'len' and a.args and isinstance(a.args[0], ast.Name) and path_of(b) in ('min_len', 'max_len'):
-                return a, path_of(b)
-        return None
-    atoms = []
-    for s_ in ast.walk(fn):
-        if isinstance(s_, ast.If) and _len_atom(s_.test) and any(_is_report(c) for c in A.calls_in(ast.Module(body=s_.body, type_ignores=[]))):
-            code = None
-            for c in A.calls_in(ast.Module(body=s_.body, type_ignores=[])):
-                if _is_report(c):
-                    code = A.const(c.args[2])
-            atoms.append((s_, _len_atom(s_.test)[1], code))
-    covered = set()
-    for s_, bound, code in atoms:
-        var = path_of(_len_atom(s_.test)[0].args[0])
-        bad = []
-        for n, b in itertools.product(range(0, 9), range(0, 9)):
-            got = bool(A.ev(s_.test, {var: 'x' * n, bound: b}))
-            want = n < b if bound == 'min_len' else n > b
-            if got != want:
-                bad.append((n, b, got))
-        wantcode = '4' if bound == 'min_len' else '5'
-        ok = not bad and code == wantcode
-        yield Ob('map_if:element_if.is_valid `%s` -> code %s' % (norm(s_.test), wantcode), ok, ctx.floc(fn, s_),
-                 '' if ok else ('length %d against %s=%d is %s' % (bad[0][0], bound, bad[0][1], 'reported' if bad[0][2] else 'not reported') if bad
-                                else 'report carries code %r' % code))
-        c = cls_of(s_)
-        probs = []
-        for where, want in (('num', 'stripped'), ('str', 'raw')):
-            if c in (where, 'both'):
-                covered.add((where, bound))
-                m = meaning(var, where)
-                if m != want:
-                    probs.append('for %s types it measures the %s string (%s)' % ('numeric' if where == 'num' else 'non-numeric',
-                                                                                 m or 'unknown', var))
-        yield Ob('map_if:element_if.is_valid `%s` measures the right string' % norm(s_.test), not probs, ctx.floc(fn, s_),
-                 '' if not probs else '; '.join(probs) + ': a value with hyphens/periods is measured %s' %
-                 ('too short' if any('stripped' in p_ for p_ in probs) else 'too long'))
-    need = {('num', 'min_len'), ('num', 'max_len'), ('str', 'min_len'), ('str', 'max_len')}
-    ok = covered == need
-    yield Ob('map_if:element_if.is_valid has a min and a max length test for numeric and for non-numeric types', ok, ctx.floc(fn),
-             '' if ok else 'no length test for %s' % sorted(need - covered))
+             '' if ok else 'characters removed before measuring: %s' % sorted(map(str, removed - {('-', ''), ('.', '')})))
+    VALS = ('12', '-12', '1.2', '-1.2', '-1.25', 'ab-c.', 'abcd', 'a b ', '1-2-3', '100', '-10.0', '0.50', '+12', '1,234', ' 12 ', 'E1')
+    BOUNDS = ((1, 3), (3, 3), (2, 5), (4, 4), (5, 9), (1, 1))
+    n_eval = 0
+    for dt in ('R', 'N', 'N0', 'N2', 'ID', 'AN', 'DT', 'TM', 'B', None):
+        numeric = dt is not None and (dt == 'R' or dt[0] == 'N')
+        bad = None
+        for val in VALS:
+            measure = len(val.replace('-', '').replace('.', '')) if numeric else len(val)
+            for lo, hi in BOUNDS:
+                n_eval += 1
+                try:
+                    vis = explore(g, {'data_type': dt, 'min_len': lo, 'max_len': hi, 'elem_val': val}, start=start, unknown='stop', on_unknown=_unknown)
+                except RuntimeError as e:
+                    raise AnalysisError('element_if.is_valid: %s' % e)
+                got = {report_nodes[i] for i in vis if i in report_nodes}
+                want = set()
+                if measure < lo:
+                    want.add('4')
+                if measure > hi:
+                    want.add('5')
+                if got != want and bad is None:
+                    bad = (val, lo, hi, sorted(got), sorted(want), measure)
+        yield Ob('map_if:element_if.is_valid length of a %s value is measured as the standard says' % (dt or 'typeless'), bad is None,
+                 ctx.floc(fn, start.stmt if start.stmt is not None else fn),
+                 '' if bad is None else 'value %r with min %d max %d: codes %s reported, %s expected (%s length %d)'
+                 % (bad[0], bad[1], bad[2], bad[3], bad[4], 'without sign and point the' if numeric else 'raw', bad[5]),
+                 detail={'evaluated': len(VALS) * len(BOUNDS)})
     # external codes
     f2 = ctx.func('map_if', 'element_if._is_valid_code')
     calls = [c for c in A.calls_in(f2) if A.call_target(c)[1] == 'isValid']
@@ -357,17 +319,23 @@ def r4_presence_usage(ctx):
     yield Ob('map_if:composite_if.is_valid data in a not-used composite is reported', ok, ctx.floc(cf), '' if ok else 'not-used test changed')
     tm = [s for s in cf.body if isinstance(s, ast.If) and 'len(comp_data) > self.get_child_count()' in norm(s.test)]
     yield Ob('map_if:composite_if.is_valid too many components reported', len(tm) == 1, ctx.floc(cf), '' if len(tm) == 1 else 'test changed')
-    # delegation covers present and missing components
-    loops = [s for s in cf.body if isinstance(s, ast.For)]
-    ok = len(loops) == 2 and 'min(len(comp_data), self.get_child_count())' in norm(loops[0].iter, 200) and 'is_valid(comp_data[i], errh)' in ast.unparse(loops[0]) \
-        and 'is_valid(None, errh)' in ast.unparse(loops[1])
-    require_idiom(ok, 'c15.py:357')
-    yield Ob('map_if:composite_if.is_valid validates present components and then the missing ones', ok, ctx.floc(cf), '' if ok else 'delegation loops changed')
-    sf = ctx.func('map_if', 'segment_if.is_valid')
-    loops = [s for s in sf.body if isinstance(s, ast.For) and 'child_count' in norm(s.iter, 200)]
-    ok = len(loops) == 2 and 'is_valid(None, errh)' in ast.unparse(loops[1]) and norm(loops[1].iter, 200) == 'range(min(len(seg_data), child_count), child_count)'
-    require_idiom(ok, 'c15.py:362')
-    yield Ob('map_if:segment_if.is_valid validates present elements and then the missing ones', ok, ctx.floc(sf), '' if ok else 'element loops changed')
+    # delegation covers present and missing components: one loop over range(min(len(DATA), N)) validating DATA[i],
+    # one over range(min(len(DATA), N), N) validating None - N being the child count, in a local or re-read
+    for fq, data, tag in (('composite_if.is_valid', 'comp_data', 'c15.py:357'), ('segment_if.is_valid', 'seg_data', 'c15.py:362')):
+        f_ = ctx.func('map_if', fq)
+        tab = {'self.get_child_count()': 'N', 'child_count': 'N'}
+        present = missing = 0
+        for lp_ in [s_ for s_ in f_.body if isinstance(s_, ast.For)]:
+            it = norm(A.abstract(lp_.iter, tab), 200)
+            body_txt = ast.unparse(lp_)
+            if it == 'range(min(len(%s), N))' % data and 'is_valid(' in body_txt:
+                present += 1
+            elif it == 'range(min(len(%s), N), N)' % data and 'is_valid(None, errh)' in body_txt:
+                missing += 1
+        ok = present == 1 and missing == 1
+        require_idiom(ok, tag)
+        yield Ob('map_if:%s validates present %s and then the missing ones' % (fq, 'components' if 'composite' in fq else 'elements'), ok, ctx.floc(f_),
+                 '' if ok else 'delegation loops changed')
 
 
 def r6_delegation_always_runs(ctx):
@@ -424,10 +392,10 @@ def r5_data(ctx):
 
 
 RULES = [
-    Rule('C15.R1', 'reported => result False (path search from every report)', r1_reported_implies_false, floor=20),
-    Rule('C15.R2', 'result False => reported (path search to every constant False)', r2_false_implies_reported, floor=15),
-    Rule('C15.R3', 'definition sources, numeric length rule, short/long atoms, code acceptance logic, exclusions', r3_sources_and_atoms, floor=16),
-    Rule('C15.R4', 'presence/usage decisions over all combinations; delegation covers missing components', r4_presence_usage, floor=10),
-    Rule('C15.R5', 'data element lengths sane; element regexes compile', r5_data, floor=300),
-    Rule('C15.R6', 'delegated is_valid calls always run and are and-ed into the result', r6_delegation_always_runs, floor=10),
+    Rule('C15.R1', 'reported => result False (path search from every report)', r1_reported_implies_false, floor=15),
+    Rule('C15.R2', 'result False => reported (path search to every constant False)', r2_false_implies_reported, floor=11),
+    Rule('C15.R3', 'definition sources, numeric length rule, short/long atoms, code acceptance logic, exclusions', r3_sources_and_atoms, floor=12),
+    Rule('C15.R4', 'presence/usage decisions over all combinations; delegation covers missing components', r4_presence_usage, floor=7),
+    Rule('C15.R5', 'data element lengths sane; element regexes compile', r5_data, floor=225),
+    Rule('C15.R6', 'delegated is_valid calls always run and are and-ed into the result', r6_delegation_always_runs, floor=7),
 ]
